@@ -148,7 +148,20 @@ def subquery_capture_cases(pop):
     n = both[0]
     a1 = _atom("sub_cap", n=n, tok="CC", name="a", p=81)
     a2 = _atom("sub_cap", n=n, tok="AA", name="b", p=80)
-    return [{"op": "or", "x": a1, "y": a2}, {"op": "or", "x": a2, "y": a1}, a1]
+    cases = [{"op": "or", "x": a1, "y": a2}, {"op": "or", "x": a2, "y": a1}, a1]
+    # ... also beyond the 64th alternative of a query (the set of alternatives a captured value belongs to is a bit mask that grows
+    # in 64-bit pieces): two alternatives that each capture two variables in a stream holding all three tokens, after 64 others
+    three = [s["id"] for s in pop if {("c", "AA"), ("c", "BB"), ("c", "CC")} <= {(e["d"], e["t"]) for e in s["ev"]}]
+    if three:
+        m = three[0]
+        x = {"op": "and", "x": _atom("sub_cap", n=m, tok="CC", name="a", p=81), "y": _atom("sub_cap", n=m, tok="AA", name="c", p=81)}
+        y = {"op": "and", "x": _atom("sub_cap", n=m, tok="CC", name="a", p=80), "y": _atom("sub_cap", n=m, tok="BB", name="c", p=80)}
+        for first, second in ((x, y), (y, x)):
+            ast = _atom("cport", n=3000)
+            for i in range(1, 64):
+                ast = {"op": "or", "x": ast, "y": _atom("cport", n=3000 + i)}
+            cases.append({"op": "or", "x": {"op": "or", "x": ast, "y": first}, "y": second})
+    return cases
 
 
 def shape(ast):
